@@ -126,6 +126,7 @@ Record socket := mkSocket {
   s_local_rx_last_ack : option Z;
   s_local_rx_dup_acks : Z;
   s_pending_fast_retransmit : bool;
+  s_syn_unacked_in_fin_wait : bool;
   s_ack_delay : option Z;
   s_ack_delay_timer : ack_delay_timer;
   s_challenge_ack_timer : Z;
@@ -141,303 +142,312 @@ Definition upd_state (s : socket) (v : tcp_state) : socket :=
     (s_local_seq_no s) (s_remote_seq_no s) (s_remote_last_seq s) (s_remote_last_ack s)
     (s_remote_last_win s) (s_remote_win_shift s) (s_remote_win_len s) (s_remote_win_scale s)
     (s_remote_has_sack s) (s_remote_mss s) (s_remote_last_ts s) (s_local_rx_last_seq s)
-    (s_local_rx_last_ack s) (s_local_rx_dup_acks s) (s_pending_fast_retransmit s) (s_ack_delay s)
-    (s_ack_delay_timer s) (s_challenge_ack_timer s) (s_nagle s) (s_congestion_controller s)
-    (s_tsval_generator s) (s_last_remote_tsval s).
+    (s_local_rx_last_ack s) (s_local_rx_dup_acks s) (s_pending_fast_retransmit s)
+    (s_syn_unacked_in_fin_wait s) (s_ack_delay s) (s_ack_delay_timer s) (s_challenge_ack_timer s)
+    (s_nagle s) (s_congestion_controller s) (s_tsval_generator s) (s_last_remote_tsval s).
 Definition upd_timer (s : socket) (v : timer) : socket :=
   mkSocket (s_state s) v (s_rtte s) (s_assembler s) (s_rx_buffer s) (s_rx_fin_received s)
     (s_tx_buffer s) (s_timeout s) (s_keep_alive s) (s_hop_limit s) (s_listen_endpoint s) (s_tuple s)
     (s_local_seq_no s) (s_remote_seq_no s) (s_remote_last_seq s) (s_remote_last_ack s)
     (s_remote_last_win s) (s_remote_win_shift s) (s_remote_win_len s) (s_remote_win_scale s)
     (s_remote_has_sack s) (s_remote_mss s) (s_remote_last_ts s) (s_local_rx_last_seq s)
-    (s_local_rx_last_ack s) (s_local_rx_dup_acks s) (s_pending_fast_retransmit s) (s_ack_delay s)
-    (s_ack_delay_timer s) (s_challenge_ack_timer s) (s_nagle s) (s_congestion_controller s)
-    (s_tsval_generator s) (s_last_remote_tsval s).
+    (s_local_rx_last_ack s) (s_local_rx_dup_acks s) (s_pending_fast_retransmit s)
+    (s_syn_unacked_in_fin_wait s) (s_ack_delay s) (s_ack_delay_timer s) (s_challenge_ack_timer s)
+    (s_nagle s) (s_congestion_controller s) (s_tsval_generator s) (s_last_remote_tsval s).
 Definition upd_rtte (s : socket) (v : rtt_estimator) : socket :=
   mkSocket (s_state s) (s_timer s) v (s_assembler s) (s_rx_buffer s) (s_rx_fin_received s)
     (s_tx_buffer s) (s_timeout s) (s_keep_alive s) (s_hop_limit s) (s_listen_endpoint s) (s_tuple s)
     (s_local_seq_no s) (s_remote_seq_no s) (s_remote_last_seq s) (s_remote_last_ack s)
     (s_remote_last_win s) (s_remote_win_shift s) (s_remote_win_len s) (s_remote_win_scale s)
     (s_remote_has_sack s) (s_remote_mss s) (s_remote_last_ts s) (s_local_rx_last_seq s)
-    (s_local_rx_last_ack s) (s_local_rx_dup_acks s) (s_pending_fast_retransmit s) (s_ack_delay s)
-    (s_ack_delay_timer s) (s_challenge_ack_timer s) (s_nagle s) (s_congestion_controller s)
-    (s_tsval_generator s) (s_last_remote_tsval s).
+    (s_local_rx_last_ack s) (s_local_rx_dup_acks s) (s_pending_fast_retransmit s)
+    (s_syn_unacked_in_fin_wait s) (s_ack_delay s) (s_ack_delay_timer s) (s_challenge_ack_timer s)
+    (s_nagle s) (s_congestion_controller s) (s_tsval_generator s) (s_last_remote_tsval s).
 Definition upd_assembler (s : socket) (v : asm) : socket :=
   mkSocket (s_state s) (s_timer s) (s_rtte s) v (s_rx_buffer s) (s_rx_fin_received s) (s_tx_buffer
     s) (s_timeout s) (s_keep_alive s) (s_hop_limit s) (s_listen_endpoint s) (s_tuple s)
     (s_local_seq_no s) (s_remote_seq_no s) (s_remote_last_seq s) (s_remote_last_ack s)
     (s_remote_last_win s) (s_remote_win_shift s) (s_remote_win_len s) (s_remote_win_scale s)
     (s_remote_has_sack s) (s_remote_mss s) (s_remote_last_ts s) (s_local_rx_last_seq s)
-    (s_local_rx_last_ack s) (s_local_rx_dup_acks s) (s_pending_fast_retransmit s) (s_ack_delay s)
-    (s_ack_delay_timer s) (s_challenge_ack_timer s) (s_nagle s) (s_congestion_controller s)
-    (s_tsval_generator s) (s_last_remote_tsval s).
+    (s_local_rx_last_ack s) (s_local_rx_dup_acks s) (s_pending_fast_retransmit s)
+    (s_syn_unacked_in_fin_wait s) (s_ack_delay s) (s_ack_delay_timer s) (s_challenge_ack_timer s)
+    (s_nagle s) (s_congestion_controller s) (s_tsval_generator s) (s_last_remote_tsval s).
 Definition upd_rx_buffer (s : socket) (v : ring) : socket :=
   mkSocket (s_state s) (s_timer s) (s_rtte s) (s_assembler s) v (s_rx_fin_received s) (s_tx_buffer
     s) (s_timeout s) (s_keep_alive s) (s_hop_limit s) (s_listen_endpoint s) (s_tuple s)
     (s_local_seq_no s) (s_remote_seq_no s) (s_remote_last_seq s) (s_remote_last_ack s)
     (s_remote_last_win s) (s_remote_win_shift s) (s_remote_win_len s) (s_remote_win_scale s)
     (s_remote_has_sack s) (s_remote_mss s) (s_remote_last_ts s) (s_local_rx_last_seq s)
-    (s_local_rx_last_ack s) (s_local_rx_dup_acks s) (s_pending_fast_retransmit s) (s_ack_delay s)
-    (s_ack_delay_timer s) (s_challenge_ack_timer s) (s_nagle s) (s_congestion_controller s)
-    (s_tsval_generator s) (s_last_remote_tsval s).
+    (s_local_rx_last_ack s) (s_local_rx_dup_acks s) (s_pending_fast_retransmit s)
+    (s_syn_unacked_in_fin_wait s) (s_ack_delay s) (s_ack_delay_timer s) (s_challenge_ack_timer s)
+    (s_nagle s) (s_congestion_controller s) (s_tsval_generator s) (s_last_remote_tsval s).
 Definition upd_rx_fin_received (s : socket) (v : bool) : socket :=
   mkSocket (s_state s) (s_timer s) (s_rtte s) (s_assembler s) (s_rx_buffer s) v (s_tx_buffer s)
     (s_timeout s) (s_keep_alive s) (s_hop_limit s) (s_listen_endpoint s) (s_tuple s) (s_local_seq_no
     s) (s_remote_seq_no s) (s_remote_last_seq s) (s_remote_last_ack s) (s_remote_last_win s)
     (s_remote_win_shift s) (s_remote_win_len s) (s_remote_win_scale s) (s_remote_has_sack s)
     (s_remote_mss s) (s_remote_last_ts s) (s_local_rx_last_seq s) (s_local_rx_last_ack s)
-    (s_local_rx_dup_acks s) (s_pending_fast_retransmit s) (s_ack_delay s) (s_ack_delay_timer s)
-    (s_challenge_ack_timer s) (s_nagle s) (s_congestion_controller s) (s_tsval_generator s)
-    (s_last_remote_tsval s).
+    (s_local_rx_dup_acks s) (s_pending_fast_retransmit s) (s_syn_unacked_in_fin_wait s) (s_ack_delay
+    s) (s_ack_delay_timer s) (s_challenge_ack_timer s) (s_nagle s) (s_congestion_controller s)
+    (s_tsval_generator s) (s_last_remote_tsval s).
 Definition upd_tx_buffer (s : socket) (v : ring) : socket :=
   mkSocket (s_state s) (s_timer s) (s_rtte s) (s_assembler s) (s_rx_buffer s) (s_rx_fin_received s)
     v (s_timeout s) (s_keep_alive s) (s_hop_limit s) (s_listen_endpoint s) (s_tuple s)
     (s_local_seq_no s) (s_remote_seq_no s) (s_remote_last_seq s) (s_remote_last_ack s)
     (s_remote_last_win s) (s_remote_win_shift s) (s_remote_win_len s) (s_remote_win_scale s)
     (s_remote_has_sack s) (s_remote_mss s) (s_remote_last_ts s) (s_local_rx_last_seq s)
-    (s_local_rx_last_ack s) (s_local_rx_dup_acks s) (s_pending_fast_retransmit s) (s_ack_delay s)
-    (s_ack_delay_timer s) (s_challenge_ack_timer s) (s_nagle s) (s_congestion_controller s)
-    (s_tsval_generator s) (s_last_remote_tsval s).
+    (s_local_rx_last_ack s) (s_local_rx_dup_acks s) (s_pending_fast_retransmit s)
+    (s_syn_unacked_in_fin_wait s) (s_ack_delay s) (s_ack_delay_timer s) (s_challenge_ack_timer s)
+    (s_nagle s) (s_congestion_controller s) (s_tsval_generator s) (s_last_remote_tsval s).
 Definition upd_timeout (s : socket) (v : option Z) : socket :=
   mkSocket (s_state s) (s_timer s) (s_rtte s) (s_assembler s) (s_rx_buffer s) (s_rx_fin_received s)
     (s_tx_buffer s) v (s_keep_alive s) (s_hop_limit s) (s_listen_endpoint s) (s_tuple s)
     (s_local_seq_no s) (s_remote_seq_no s) (s_remote_last_seq s) (s_remote_last_ack s)
     (s_remote_last_win s) (s_remote_win_shift s) (s_remote_win_len s) (s_remote_win_scale s)
     (s_remote_has_sack s) (s_remote_mss s) (s_remote_last_ts s) (s_local_rx_last_seq s)
-    (s_local_rx_last_ack s) (s_local_rx_dup_acks s) (s_pending_fast_retransmit s) (s_ack_delay s)
-    (s_ack_delay_timer s) (s_challenge_ack_timer s) (s_nagle s) (s_congestion_controller s)
-    (s_tsval_generator s) (s_last_remote_tsval s).
+    (s_local_rx_last_ack s) (s_local_rx_dup_acks s) (s_pending_fast_retransmit s)
+    (s_syn_unacked_in_fin_wait s) (s_ack_delay s) (s_ack_delay_timer s) (s_challenge_ack_timer s)
+    (s_nagle s) (s_congestion_controller s) (s_tsval_generator s) (s_last_remote_tsval s).
 Definition upd_keep_alive (s : socket) (v : option Z) : socket :=
   mkSocket (s_state s) (s_timer s) (s_rtte s) (s_assembler s) (s_rx_buffer s) (s_rx_fin_received s)
     (s_tx_buffer s) (s_timeout s) v (s_hop_limit s) (s_listen_endpoint s) (s_tuple s)
     (s_local_seq_no s) (s_remote_seq_no s) (s_remote_last_seq s) (s_remote_last_ack s)
     (s_remote_last_win s) (s_remote_win_shift s) (s_remote_win_len s) (s_remote_win_scale s)
     (s_remote_has_sack s) (s_remote_mss s) (s_remote_last_ts s) (s_local_rx_last_seq s)
-    (s_local_rx_last_ack s) (s_local_rx_dup_acks s) (s_pending_fast_retransmit s) (s_ack_delay s)
-    (s_ack_delay_timer s) (s_challenge_ack_timer s) (s_nagle s) (s_congestion_controller s)
-    (s_tsval_generator s) (s_last_remote_tsval s).
+    (s_local_rx_last_ack s) (s_local_rx_dup_acks s) (s_pending_fast_retransmit s)
+    (s_syn_unacked_in_fin_wait s) (s_ack_delay s) (s_ack_delay_timer s) (s_challenge_ack_timer s)
+    (s_nagle s) (s_congestion_controller s) (s_tsval_generator s) (s_last_remote_tsval s).
 Definition upd_hop_limit (s : socket) (v : option Z) : socket :=
   mkSocket (s_state s) (s_timer s) (s_rtte s) (s_assembler s) (s_rx_buffer s) (s_rx_fin_received s)
     (s_tx_buffer s) (s_timeout s) (s_keep_alive s) v (s_listen_endpoint s) (s_tuple s)
     (s_local_seq_no s) (s_remote_seq_no s) (s_remote_last_seq s) (s_remote_last_ack s)
     (s_remote_last_win s) (s_remote_win_shift s) (s_remote_win_len s) (s_remote_win_scale s)
     (s_remote_has_sack s) (s_remote_mss s) (s_remote_last_ts s) (s_local_rx_last_seq s)
-    (s_local_rx_last_ack s) (s_local_rx_dup_acks s) (s_pending_fast_retransmit s) (s_ack_delay s)
-    (s_ack_delay_timer s) (s_challenge_ack_timer s) (s_nagle s) (s_congestion_controller s)
-    (s_tsval_generator s) (s_last_remote_tsval s).
+    (s_local_rx_last_ack s) (s_local_rx_dup_acks s) (s_pending_fast_retransmit s)
+    (s_syn_unacked_in_fin_wait s) (s_ack_delay s) (s_ack_delay_timer s) (s_challenge_ack_timer s)
+    (s_nagle s) (s_congestion_controller s) (s_tsval_generator s) (s_last_remote_tsval s).
 Definition upd_listen_endpoint (s : socket) (v : listen_endpoint) : socket :=
   mkSocket (s_state s) (s_timer s) (s_rtte s) (s_assembler s) (s_rx_buffer s) (s_rx_fin_received s)
     (s_tx_buffer s) (s_timeout s) (s_keep_alive s) (s_hop_limit s) v (s_tuple s) (s_local_seq_no s)
     (s_remote_seq_no s) (s_remote_last_seq s) (s_remote_last_ack s) (s_remote_last_win s)
     (s_remote_win_shift s) (s_remote_win_len s) (s_remote_win_scale s) (s_remote_has_sack s)
     (s_remote_mss s) (s_remote_last_ts s) (s_local_rx_last_seq s) (s_local_rx_last_ack s)
-    (s_local_rx_dup_acks s) (s_pending_fast_retransmit s) (s_ack_delay s) (s_ack_delay_timer s)
-    (s_challenge_ack_timer s) (s_nagle s) (s_congestion_controller s) (s_tsval_generator s)
-    (s_last_remote_tsval s).
+    (s_local_rx_dup_acks s) (s_pending_fast_retransmit s) (s_syn_unacked_in_fin_wait s) (s_ack_delay
+    s) (s_ack_delay_timer s) (s_challenge_ack_timer s) (s_nagle s) (s_congestion_controller s)
+    (s_tsval_generator s) (s_last_remote_tsval s).
 Definition upd_tuple (s : socket) (v : option tuple) : socket :=
   mkSocket (s_state s) (s_timer s) (s_rtte s) (s_assembler s) (s_rx_buffer s) (s_rx_fin_received s)
     (s_tx_buffer s) (s_timeout s) (s_keep_alive s) (s_hop_limit s) (s_listen_endpoint s) v
     (s_local_seq_no s) (s_remote_seq_no s) (s_remote_last_seq s) (s_remote_last_ack s)
     (s_remote_last_win s) (s_remote_win_shift s) (s_remote_win_len s) (s_remote_win_scale s)
     (s_remote_has_sack s) (s_remote_mss s) (s_remote_last_ts s) (s_local_rx_last_seq s)
-    (s_local_rx_last_ack s) (s_local_rx_dup_acks s) (s_pending_fast_retransmit s) (s_ack_delay s)
-    (s_ack_delay_timer s) (s_challenge_ack_timer s) (s_nagle s) (s_congestion_controller s)
-    (s_tsval_generator s) (s_last_remote_tsval s).
+    (s_local_rx_last_ack s) (s_local_rx_dup_acks s) (s_pending_fast_retransmit s)
+    (s_syn_unacked_in_fin_wait s) (s_ack_delay s) (s_ack_delay_timer s) (s_challenge_ack_timer s)
+    (s_nagle s) (s_congestion_controller s) (s_tsval_generator s) (s_last_remote_tsval s).
 Definition upd_local_seq_no (s : socket) (v : Z) : socket :=
   mkSocket (s_state s) (s_timer s) (s_rtte s) (s_assembler s) (s_rx_buffer s) (s_rx_fin_received s)
     (s_tx_buffer s) (s_timeout s) (s_keep_alive s) (s_hop_limit s) (s_listen_endpoint s) (s_tuple s)
     v (s_remote_seq_no s) (s_remote_last_seq s) (s_remote_last_ack s) (s_remote_last_win s)
     (s_remote_win_shift s) (s_remote_win_len s) (s_remote_win_scale s) (s_remote_has_sack s)
     (s_remote_mss s) (s_remote_last_ts s) (s_local_rx_last_seq s) (s_local_rx_last_ack s)
-    (s_local_rx_dup_acks s) (s_pending_fast_retransmit s) (s_ack_delay s) (s_ack_delay_timer s)
-    (s_challenge_ack_timer s) (s_nagle s) (s_congestion_controller s) (s_tsval_generator s)
-    (s_last_remote_tsval s).
+    (s_local_rx_dup_acks s) (s_pending_fast_retransmit s) (s_syn_unacked_in_fin_wait s) (s_ack_delay
+    s) (s_ack_delay_timer s) (s_challenge_ack_timer s) (s_nagle s) (s_congestion_controller s)
+    (s_tsval_generator s) (s_last_remote_tsval s).
 Definition upd_remote_seq_no (s : socket) (v : Z) : socket :=
   mkSocket (s_state s) (s_timer s) (s_rtte s) (s_assembler s) (s_rx_buffer s) (s_rx_fin_received s)
     (s_tx_buffer s) (s_timeout s) (s_keep_alive s) (s_hop_limit s) (s_listen_endpoint s) (s_tuple s)
     (s_local_seq_no s) v (s_remote_last_seq s) (s_remote_last_ack s) (s_remote_last_win s)
     (s_remote_win_shift s) (s_remote_win_len s) (s_remote_win_scale s) (s_remote_has_sack s)
     (s_remote_mss s) (s_remote_last_ts s) (s_local_rx_last_seq s) (s_local_rx_last_ack s)
-    (s_local_rx_dup_acks s) (s_pending_fast_retransmit s) (s_ack_delay s) (s_ack_delay_timer s)
-    (s_challenge_ack_timer s) (s_nagle s) (s_congestion_controller s) (s_tsval_generator s)
-    (s_last_remote_tsval s).
+    (s_local_rx_dup_acks s) (s_pending_fast_retransmit s) (s_syn_unacked_in_fin_wait s) (s_ack_delay
+    s) (s_ack_delay_timer s) (s_challenge_ack_timer s) (s_nagle s) (s_congestion_controller s)
+    (s_tsval_generator s) (s_last_remote_tsval s).
 Definition upd_remote_last_seq (s : socket) (v : Z) : socket :=
   mkSocket (s_state s) (s_timer s) (s_rtte s) (s_assembler s) (s_rx_buffer s) (s_rx_fin_received s)
     (s_tx_buffer s) (s_timeout s) (s_keep_alive s) (s_hop_limit s) (s_listen_endpoint s) (s_tuple s)
     (s_local_seq_no s) (s_remote_seq_no s) v (s_remote_last_ack s) (s_remote_last_win s)
     (s_remote_win_shift s) (s_remote_win_len s) (s_remote_win_scale s) (s_remote_has_sack s)
     (s_remote_mss s) (s_remote_last_ts s) (s_local_rx_last_seq s) (s_local_rx_last_ack s)
-    (s_local_rx_dup_acks s) (s_pending_fast_retransmit s) (s_ack_delay s) (s_ack_delay_timer s)
-    (s_challenge_ack_timer s) (s_nagle s) (s_congestion_controller s) (s_tsval_generator s)
-    (s_last_remote_tsval s).
+    (s_local_rx_dup_acks s) (s_pending_fast_retransmit s) (s_syn_unacked_in_fin_wait s) (s_ack_delay
+    s) (s_ack_delay_timer s) (s_challenge_ack_timer s) (s_nagle s) (s_congestion_controller s)
+    (s_tsval_generator s) (s_last_remote_tsval s).
 Definition upd_remote_last_ack (s : socket) (v : option Z) : socket :=
   mkSocket (s_state s) (s_timer s) (s_rtte s) (s_assembler s) (s_rx_buffer s) (s_rx_fin_received s)
     (s_tx_buffer s) (s_timeout s) (s_keep_alive s) (s_hop_limit s) (s_listen_endpoint s) (s_tuple s)
     (s_local_seq_no s) (s_remote_seq_no s) (s_remote_last_seq s) v (s_remote_last_win s)
     (s_remote_win_shift s) (s_remote_win_len s) (s_remote_win_scale s) (s_remote_has_sack s)
     (s_remote_mss s) (s_remote_last_ts s) (s_local_rx_last_seq s) (s_local_rx_last_ack s)
-    (s_local_rx_dup_acks s) (s_pending_fast_retransmit s) (s_ack_delay s) (s_ack_delay_timer s)
-    (s_challenge_ack_timer s) (s_nagle s) (s_congestion_controller s) (s_tsval_generator s)
-    (s_last_remote_tsval s).
+    (s_local_rx_dup_acks s) (s_pending_fast_retransmit s) (s_syn_unacked_in_fin_wait s) (s_ack_delay
+    s) (s_ack_delay_timer s) (s_challenge_ack_timer s) (s_nagle s) (s_congestion_controller s)
+    (s_tsval_generator s) (s_last_remote_tsval s).
 Definition upd_remote_last_win (s : socket) (v : Z) : socket :=
   mkSocket (s_state s) (s_timer s) (s_rtte s) (s_assembler s) (s_rx_buffer s) (s_rx_fin_received s)
     (s_tx_buffer s) (s_timeout s) (s_keep_alive s) (s_hop_limit s) (s_listen_endpoint s) (s_tuple s)
     (s_local_seq_no s) (s_remote_seq_no s) (s_remote_last_seq s) (s_remote_last_ack s) v
     (s_remote_win_shift s) (s_remote_win_len s) (s_remote_win_scale s) (s_remote_has_sack s)
     (s_remote_mss s) (s_remote_last_ts s) (s_local_rx_last_seq s) (s_local_rx_last_ack s)
-    (s_local_rx_dup_acks s) (s_pending_fast_retransmit s) (s_ack_delay s) (s_ack_delay_timer s)
-    (s_challenge_ack_timer s) (s_nagle s) (s_congestion_controller s) (s_tsval_generator s)
-    (s_last_remote_tsval s).
+    (s_local_rx_dup_acks s) (s_pending_fast_retransmit s) (s_syn_unacked_in_fin_wait s) (s_ack_delay
+    s) (s_ack_delay_timer s) (s_challenge_ack_timer s) (s_nagle s) (s_congestion_controller s)
+    (s_tsval_generator s) (s_last_remote_tsval s).
 Definition upd_remote_win_shift (s : socket) (v : Z) : socket :=
   mkSocket (s_state s) (s_timer s) (s_rtte s) (s_assembler s) (s_rx_buffer s) (s_rx_fin_received s)
     (s_tx_buffer s) (s_timeout s) (s_keep_alive s) (s_hop_limit s) (s_listen_endpoint s) (s_tuple s)
     (s_local_seq_no s) (s_remote_seq_no s) (s_remote_last_seq s) (s_remote_last_ack s)
     (s_remote_last_win s) v (s_remote_win_len s) (s_remote_win_scale s) (s_remote_has_sack s)
     (s_remote_mss s) (s_remote_last_ts s) (s_local_rx_last_seq s) (s_local_rx_last_ack s)
-    (s_local_rx_dup_acks s) (s_pending_fast_retransmit s) (s_ack_delay s) (s_ack_delay_timer s)
-    (s_challenge_ack_timer s) (s_nagle s) (s_congestion_controller s) (s_tsval_generator s)
-    (s_last_remote_tsval s).
+    (s_local_rx_dup_acks s) (s_pending_fast_retransmit s) (s_syn_unacked_in_fin_wait s) (s_ack_delay
+    s) (s_ack_delay_timer s) (s_challenge_ack_timer s) (s_nagle s) (s_congestion_controller s)
+    (s_tsval_generator s) (s_last_remote_tsval s).
 Definition upd_remote_win_len (s : socket) (v : Z) : socket :=
   mkSocket (s_state s) (s_timer s) (s_rtte s) (s_assembler s) (s_rx_buffer s) (s_rx_fin_received s)
     (s_tx_buffer s) (s_timeout s) (s_keep_alive s) (s_hop_limit s) (s_listen_endpoint s) (s_tuple s)
     (s_local_seq_no s) (s_remote_seq_no s) (s_remote_last_seq s) (s_remote_last_ack s)
     (s_remote_last_win s) (s_remote_win_shift s) v (s_remote_win_scale s) (s_remote_has_sack s)
     (s_remote_mss s) (s_remote_last_ts s) (s_local_rx_last_seq s) (s_local_rx_last_ack s)
-    (s_local_rx_dup_acks s) (s_pending_fast_retransmit s) (s_ack_delay s) (s_ack_delay_timer s)
-    (s_challenge_ack_timer s) (s_nagle s) (s_congestion_controller s) (s_tsval_generator s)
-    (s_last_remote_tsval s).
+    (s_local_rx_dup_acks s) (s_pending_fast_retransmit s) (s_syn_unacked_in_fin_wait s) (s_ack_delay
+    s) (s_ack_delay_timer s) (s_challenge_ack_timer s) (s_nagle s) (s_congestion_controller s)
+    (s_tsval_generator s) (s_last_remote_tsval s).
 Definition upd_remote_win_scale (s : socket) (v : option Z) : socket :=
   mkSocket (s_state s) (s_timer s) (s_rtte s) (s_assembler s) (s_rx_buffer s) (s_rx_fin_received s)
     (s_tx_buffer s) (s_timeout s) (s_keep_alive s) (s_hop_limit s) (s_listen_endpoint s) (s_tuple s)
     (s_local_seq_no s) (s_remote_seq_no s) (s_remote_last_seq s) (s_remote_last_ack s)
     (s_remote_last_win s) (s_remote_win_shift s) (s_remote_win_len s) v (s_remote_has_sack s)
     (s_remote_mss s) (s_remote_last_ts s) (s_local_rx_last_seq s) (s_local_rx_last_ack s)
-    (s_local_rx_dup_acks s) (s_pending_fast_retransmit s) (s_ack_delay s) (s_ack_delay_timer s)
-    (s_challenge_ack_timer s) (s_nagle s) (s_congestion_controller s) (s_tsval_generator s)
-    (s_last_remote_tsval s).
+    (s_local_rx_dup_acks s) (s_pending_fast_retransmit s) (s_syn_unacked_in_fin_wait s) (s_ack_delay
+    s) (s_ack_delay_timer s) (s_challenge_ack_timer s) (s_nagle s) (s_congestion_controller s)
+    (s_tsval_generator s) (s_last_remote_tsval s).
 Definition upd_remote_has_sack (s : socket) (v : bool) : socket :=
   mkSocket (s_state s) (s_timer s) (s_rtte s) (s_assembler s) (s_rx_buffer s) (s_rx_fin_received s)
     (s_tx_buffer s) (s_timeout s) (s_keep_alive s) (s_hop_limit s) (s_listen_endpoint s) (s_tuple s)
     (s_local_seq_no s) (s_remote_seq_no s) (s_remote_last_seq s) (s_remote_last_ack s)
     (s_remote_last_win s) (s_remote_win_shift s) (s_remote_win_len s) (s_remote_win_scale s) v
     (s_remote_mss s) (s_remote_last_ts s) (s_local_rx_last_seq s) (s_local_rx_last_ack s)
-    (s_local_rx_dup_acks s) (s_pending_fast_retransmit s) (s_ack_delay s) (s_ack_delay_timer s)
-    (s_challenge_ack_timer s) (s_nagle s) (s_congestion_controller s) (s_tsval_generator s)
-    (s_last_remote_tsval s).
+    (s_local_rx_dup_acks s) (s_pending_fast_retransmit s) (s_syn_unacked_in_fin_wait s) (s_ack_delay
+    s) (s_ack_delay_timer s) (s_challenge_ack_timer s) (s_nagle s) (s_congestion_controller s)
+    (s_tsval_generator s) (s_last_remote_tsval s).
 Definition upd_remote_mss (s : socket) (v : Z) : socket :=
   mkSocket (s_state s) (s_timer s) (s_rtte s) (s_assembler s) (s_rx_buffer s) (s_rx_fin_received s)
     (s_tx_buffer s) (s_timeout s) (s_keep_alive s) (s_hop_limit s) (s_listen_endpoint s) (s_tuple s)
     (s_local_seq_no s) (s_remote_seq_no s) (s_remote_last_seq s) (s_remote_last_ack s)
     (s_remote_last_win s) (s_remote_win_shift s) (s_remote_win_len s) (s_remote_win_scale s)
     (s_remote_has_sack s) v (s_remote_last_ts s) (s_local_rx_last_seq s) (s_local_rx_last_ack s)
-    (s_local_rx_dup_acks s) (s_pending_fast_retransmit s) (s_ack_delay s) (s_ack_delay_timer s)
-    (s_challenge_ack_timer s) (s_nagle s) (s_congestion_controller s) (s_tsval_generator s)
-    (s_last_remote_tsval s).
+    (s_local_rx_dup_acks s) (s_pending_fast_retransmit s) (s_syn_unacked_in_fin_wait s) (s_ack_delay
+    s) (s_ack_delay_timer s) (s_challenge_ack_timer s) (s_nagle s) (s_congestion_controller s)
+    (s_tsval_generator s) (s_last_remote_tsval s).
 Definition upd_remote_last_ts (s : socket) (v : option Z) : socket :=
   mkSocket (s_state s) (s_timer s) (s_rtte s) (s_assembler s) (s_rx_buffer s) (s_rx_fin_received s)
     (s_tx_buffer s) (s_timeout s) (s_keep_alive s) (s_hop_limit s) (s_listen_endpoint s) (s_tuple s)
     (s_local_seq_no s) (s_remote_seq_no s) (s_remote_last_seq s) (s_remote_last_ack s)
     (s_remote_last_win s) (s_remote_win_shift s) (s_remote_win_len s) (s_remote_win_scale s)
     (s_remote_has_sack s) (s_remote_mss s) v (s_local_rx_last_seq s) (s_local_rx_last_ack s)
-    (s_local_rx_dup_acks s) (s_pending_fast_retransmit s) (s_ack_delay s) (s_ack_delay_timer s)
-    (s_challenge_ack_timer s) (s_nagle s) (s_congestion_controller s) (s_tsval_generator s)
-    (s_last_remote_tsval s).
+    (s_local_rx_dup_acks s) (s_pending_fast_retransmit s) (s_syn_unacked_in_fin_wait s) (s_ack_delay
+    s) (s_ack_delay_timer s) (s_challenge_ack_timer s) (s_nagle s) (s_congestion_controller s)
+    (s_tsval_generator s) (s_last_remote_tsval s).
 Definition upd_local_rx_last_seq (s : socket) (v : option Z) : socket :=
   mkSocket (s_state s) (s_timer s) (s_rtte s) (s_assembler s) (s_rx_buffer s) (s_rx_fin_received s)
     (s_tx_buffer s) (s_timeout s) (s_keep_alive s) (s_hop_limit s) (s_listen_endpoint s) (s_tuple s)
     (s_local_seq_no s) (s_remote_seq_no s) (s_remote_last_seq s) (s_remote_last_ack s)
     (s_remote_last_win s) (s_remote_win_shift s) (s_remote_win_len s) (s_remote_win_scale s)
     (s_remote_has_sack s) (s_remote_mss s) (s_remote_last_ts s) v (s_local_rx_last_ack s)
-    (s_local_rx_dup_acks s) (s_pending_fast_retransmit s) (s_ack_delay s) (s_ack_delay_timer s)
-    (s_challenge_ack_timer s) (s_nagle s) (s_congestion_controller s) (s_tsval_generator s)
-    (s_last_remote_tsval s).
+    (s_local_rx_dup_acks s) (s_pending_fast_retransmit s) (s_syn_unacked_in_fin_wait s) (s_ack_delay
+    s) (s_ack_delay_timer s) (s_challenge_ack_timer s) (s_nagle s) (s_congestion_controller s)
+    (s_tsval_generator s) (s_last_remote_tsval s).
 Definition upd_local_rx_last_ack (s : socket) (v : option Z) : socket :=
   mkSocket (s_state s) (s_timer s) (s_rtte s) (s_assembler s) (s_rx_buffer s) (s_rx_fin_received s)
     (s_tx_buffer s) (s_timeout s) (s_keep_alive s) (s_hop_limit s) (s_listen_endpoint s) (s_tuple s)
     (s_local_seq_no s) (s_remote_seq_no s) (s_remote_last_seq s) (s_remote_last_ack s)
     (s_remote_last_win s) (s_remote_win_shift s) (s_remote_win_len s) (s_remote_win_scale s)
     (s_remote_has_sack s) (s_remote_mss s) (s_remote_last_ts s) (s_local_rx_last_seq s) v
-    (s_local_rx_dup_acks s) (s_pending_fast_retransmit s) (s_ack_delay s) (s_ack_delay_timer s)
-    (s_challenge_ack_timer s) (s_nagle s) (s_congestion_controller s) (s_tsval_generator s)
-    (s_last_remote_tsval s).
+    (s_local_rx_dup_acks s) (s_pending_fast_retransmit s) (s_syn_unacked_in_fin_wait s) (s_ack_delay
+    s) (s_ack_delay_timer s) (s_challenge_ack_timer s) (s_nagle s) (s_congestion_controller s)
+    (s_tsval_generator s) (s_last_remote_tsval s).
 Definition upd_local_rx_dup_acks (s : socket) (v : Z) : socket :=
   mkSocket (s_state s) (s_timer s) (s_rtte s) (s_assembler s) (s_rx_buffer s) (s_rx_fin_received s)
     (s_tx_buffer s) (s_timeout s) (s_keep_alive s) (s_hop_limit s) (s_listen_endpoint s) (s_tuple s)
     (s_local_seq_no s) (s_remote_seq_no s) (s_remote_last_seq s) (s_remote_last_ack s)
     (s_remote_last_win s) (s_remote_win_shift s) (s_remote_win_len s) (s_remote_win_scale s)
     (s_remote_has_sack s) (s_remote_mss s) (s_remote_last_ts s) (s_local_rx_last_seq s)
-    (s_local_rx_last_ack s) v (s_pending_fast_retransmit s) (s_ack_delay s) (s_ack_delay_timer s)
-    (s_challenge_ack_timer s) (s_nagle s) (s_congestion_controller s) (s_tsval_generator s)
-    (s_last_remote_tsval s).
+    (s_local_rx_last_ack s) v (s_pending_fast_retransmit s) (s_syn_unacked_in_fin_wait s)
+    (s_ack_delay s) (s_ack_delay_timer s) (s_challenge_ack_timer s) (s_nagle s)
+    (s_congestion_controller s) (s_tsval_generator s) (s_last_remote_tsval s).
 Definition upd_pending_fast_retransmit (s : socket) (v : bool) : socket :=
   mkSocket (s_state s) (s_timer s) (s_rtte s) (s_assembler s) (s_rx_buffer s) (s_rx_fin_received s)
     (s_tx_buffer s) (s_timeout s) (s_keep_alive s) (s_hop_limit s) (s_listen_endpoint s) (s_tuple s)
     (s_local_seq_no s) (s_remote_seq_no s) (s_remote_last_seq s) (s_remote_last_ack s)
     (s_remote_last_win s) (s_remote_win_shift s) (s_remote_win_len s) (s_remote_win_scale s)
     (s_remote_has_sack s) (s_remote_mss s) (s_remote_last_ts s) (s_local_rx_last_seq s)
-    (s_local_rx_last_ack s) (s_local_rx_dup_acks s) v (s_ack_delay s) (s_ack_delay_timer s)
-    (s_challenge_ack_timer s) (s_nagle s) (s_congestion_controller s) (s_tsval_generator s)
-    (s_last_remote_tsval s).
+    (s_local_rx_last_ack s) (s_local_rx_dup_acks s) v (s_syn_unacked_in_fin_wait s) (s_ack_delay s)
+    (s_ack_delay_timer s) (s_challenge_ack_timer s) (s_nagle s) (s_congestion_controller s)
+    (s_tsval_generator s) (s_last_remote_tsval s).
+Definition upd_syn_unacked_in_fin_wait (s : socket) (v : bool) : socket :=
+  mkSocket (s_state s) (s_timer s) (s_rtte s) (s_assembler s) (s_rx_buffer s) (s_rx_fin_received s)
+    (s_tx_buffer s) (s_timeout s) (s_keep_alive s) (s_hop_limit s) (s_listen_endpoint s) (s_tuple s)
+    (s_local_seq_no s) (s_remote_seq_no s) (s_remote_last_seq s) (s_remote_last_ack s)
+    (s_remote_last_win s) (s_remote_win_shift s) (s_remote_win_len s) (s_remote_win_scale s)
+    (s_remote_has_sack s) (s_remote_mss s) (s_remote_last_ts s) (s_local_rx_last_seq s)
+    (s_local_rx_last_ack s) (s_local_rx_dup_acks s) (s_pending_fast_retransmit s) v (s_ack_delay s)
+    (s_ack_delay_timer s) (s_challenge_ack_timer s) (s_nagle s) (s_congestion_controller s)
+    (s_tsval_generator s) (s_last_remote_tsval s).
 Definition upd_ack_delay (s : socket) (v : option Z) : socket :=
   mkSocket (s_state s) (s_timer s) (s_rtte s) (s_assembler s) (s_rx_buffer s) (s_rx_fin_received s)
     (s_tx_buffer s) (s_timeout s) (s_keep_alive s) (s_hop_limit s) (s_listen_endpoint s) (s_tuple s)
     (s_local_seq_no s) (s_remote_seq_no s) (s_remote_last_seq s) (s_remote_last_ack s)
     (s_remote_last_win s) (s_remote_win_shift s) (s_remote_win_len s) (s_remote_win_scale s)
     (s_remote_has_sack s) (s_remote_mss s) (s_remote_last_ts s) (s_local_rx_last_seq s)
-    (s_local_rx_last_ack s) (s_local_rx_dup_acks s) (s_pending_fast_retransmit s) v
-    (s_ack_delay_timer s) (s_challenge_ack_timer s) (s_nagle s) (s_congestion_controller s)
-    (s_tsval_generator s) (s_last_remote_tsval s).
+    (s_local_rx_last_ack s) (s_local_rx_dup_acks s) (s_pending_fast_retransmit s)
+    (s_syn_unacked_in_fin_wait s) v (s_ack_delay_timer s) (s_challenge_ack_timer s) (s_nagle s)
+    (s_congestion_controller s) (s_tsval_generator s) (s_last_remote_tsval s).
 Definition upd_ack_delay_timer (s : socket) (v : ack_delay_timer) : socket :=
   mkSocket (s_state s) (s_timer s) (s_rtte s) (s_assembler s) (s_rx_buffer s) (s_rx_fin_received s)
     (s_tx_buffer s) (s_timeout s) (s_keep_alive s) (s_hop_limit s) (s_listen_endpoint s) (s_tuple s)
     (s_local_seq_no s) (s_remote_seq_no s) (s_remote_last_seq s) (s_remote_last_ack s)
     (s_remote_last_win s) (s_remote_win_shift s) (s_remote_win_len s) (s_remote_win_scale s)
     (s_remote_has_sack s) (s_remote_mss s) (s_remote_last_ts s) (s_local_rx_last_seq s)
-    (s_local_rx_last_ack s) (s_local_rx_dup_acks s) (s_pending_fast_retransmit s) (s_ack_delay s) v
-    (s_challenge_ack_timer s) (s_nagle s) (s_congestion_controller s) (s_tsval_generator s)
-    (s_last_remote_tsval s).
+    (s_local_rx_last_ack s) (s_local_rx_dup_acks s) (s_pending_fast_retransmit s)
+    (s_syn_unacked_in_fin_wait s) (s_ack_delay s) v (s_challenge_ack_timer s) (s_nagle s)
+    (s_congestion_controller s) (s_tsval_generator s) (s_last_remote_tsval s).
 Definition upd_challenge_ack_timer (s : socket) (v : Z) : socket :=
   mkSocket (s_state s) (s_timer s) (s_rtte s) (s_assembler s) (s_rx_buffer s) (s_rx_fin_received s)
     (s_tx_buffer s) (s_timeout s) (s_keep_alive s) (s_hop_limit s) (s_listen_endpoint s) (s_tuple s)
     (s_local_seq_no s) (s_remote_seq_no s) (s_remote_last_seq s) (s_remote_last_ack s)
     (s_remote_last_win s) (s_remote_win_shift s) (s_remote_win_len s) (s_remote_win_scale s)
     (s_remote_has_sack s) (s_remote_mss s) (s_remote_last_ts s) (s_local_rx_last_seq s)
-    (s_local_rx_last_ack s) (s_local_rx_dup_acks s) (s_pending_fast_retransmit s) (s_ack_delay s)
-    (s_ack_delay_timer s) v (s_nagle s) (s_congestion_controller s) (s_tsval_generator s)
-    (s_last_remote_tsval s).
+    (s_local_rx_last_ack s) (s_local_rx_dup_acks s) (s_pending_fast_retransmit s)
+    (s_syn_unacked_in_fin_wait s) (s_ack_delay s) (s_ack_delay_timer s) v (s_nagle s)
+    (s_congestion_controller s) (s_tsval_generator s) (s_last_remote_tsval s).
 Definition upd_nagle (s : socket) (v : bool) : socket :=
   mkSocket (s_state s) (s_timer s) (s_rtte s) (s_assembler s) (s_rx_buffer s) (s_rx_fin_received s)
     (s_tx_buffer s) (s_timeout s) (s_keep_alive s) (s_hop_limit s) (s_listen_endpoint s) (s_tuple s)
     (s_local_seq_no s) (s_remote_seq_no s) (s_remote_last_seq s) (s_remote_last_ack s)
     (s_remote_last_win s) (s_remote_win_shift s) (s_remote_win_len s) (s_remote_win_scale s)
     (s_remote_has_sack s) (s_remote_mss s) (s_remote_last_ts s) (s_local_rx_last_seq s)
-    (s_local_rx_last_ack s) (s_local_rx_dup_acks s) (s_pending_fast_retransmit s) (s_ack_delay s)
-    (s_ack_delay_timer s) (s_challenge_ack_timer s) v (s_congestion_controller s) (s_tsval_generator
-    s) (s_last_remote_tsval s).
+    (s_local_rx_last_ack s) (s_local_rx_dup_acks s) (s_pending_fast_retransmit s)
+    (s_syn_unacked_in_fin_wait s) (s_ack_delay s) (s_ack_delay_timer s) (s_challenge_ack_timer s) v
+    (s_congestion_controller s) (s_tsval_generator s) (s_last_remote_tsval s).
 Definition upd_congestion_controller (s : socket) (v : controller) : socket :=
   mkSocket (s_state s) (s_timer s) (s_rtte s) (s_assembler s) (s_rx_buffer s) (s_rx_fin_received s)
     (s_tx_buffer s) (s_timeout s) (s_keep_alive s) (s_hop_limit s) (s_listen_endpoint s) (s_tuple s)
     (s_local_seq_no s) (s_remote_seq_no s) (s_remote_last_seq s) (s_remote_last_ack s)
     (s_remote_last_win s) (s_remote_win_shift s) (s_remote_win_len s) (s_remote_win_scale s)
     (s_remote_has_sack s) (s_remote_mss s) (s_remote_last_ts s) (s_local_rx_last_seq s)
-    (s_local_rx_last_ack s) (s_local_rx_dup_acks s) (s_pending_fast_retransmit s) (s_ack_delay s)
-    (s_ack_delay_timer s) (s_challenge_ack_timer s) (s_nagle s) v (s_tsval_generator s)
-    (s_last_remote_tsval s).
+    (s_local_rx_last_ack s) (s_local_rx_dup_acks s) (s_pending_fast_retransmit s)
+    (s_syn_unacked_in_fin_wait s) (s_ack_delay s) (s_ack_delay_timer s) (s_challenge_ack_timer s)
+    (s_nagle s) v (s_tsval_generator s) (s_last_remote_tsval s).
 Definition upd_tsval_generator (s : socket) (v : bool) : socket :=
   mkSocket (s_state s) (s_timer s) (s_rtte s) (s_assembler s) (s_rx_buffer s) (s_rx_fin_received s)
     (s_tx_buffer s) (s_timeout s) (s_keep_alive s) (s_hop_limit s) (s_listen_endpoint s) (s_tuple s)
     (s_local_seq_no s) (s_remote_seq_no s) (s_remote_last_seq s) (s_remote_last_ack s)
     (s_remote_last_win s) (s_remote_win_shift s) (s_remote_win_len s) (s_remote_win_scale s)
     (s_remote_has_sack s) (s_remote_mss s) (s_remote_last_ts s) (s_local_rx_last_seq s)
-    (s_local_rx_last_ack s) (s_local_rx_dup_acks s) (s_pending_fast_retransmit s) (s_ack_delay s)
-    (s_ack_delay_timer s) (s_challenge_ack_timer s) (s_nagle s) (s_congestion_controller s) v
-    (s_last_remote_tsval s).
+    (s_local_rx_last_ack s) (s_local_rx_dup_acks s) (s_pending_fast_retransmit s)
+    (s_syn_unacked_in_fin_wait s) (s_ack_delay s) (s_ack_delay_timer s) (s_challenge_ack_timer s)
+    (s_nagle s) (s_congestion_controller s) v (s_last_remote_tsval s).
 Definition upd_last_remote_tsval (s : socket) (v : Z) : socket :=
   mkSocket (s_state s) (s_timer s) (s_rtte s) (s_assembler s) (s_rx_buffer s) (s_rx_fin_received s)
     (s_tx_buffer s) (s_timeout s) (s_keep_alive s) (s_hop_limit s) (s_listen_endpoint s) (s_tuple s)
     (s_local_seq_no s) (s_remote_seq_no s) (s_remote_last_seq s) (s_remote_last_ack s)
     (s_remote_last_win s) (s_remote_win_shift s) (s_remote_win_len s) (s_remote_win_scale s)
     (s_remote_has_sack s) (s_remote_mss s) (s_remote_last_ts s) (s_local_rx_last_seq s)
-    (s_local_rx_last_ack s) (s_local_rx_dup_acks s) (s_pending_fast_retransmit s) (s_ack_delay s)
-    (s_ack_delay_timer s) (s_challenge_ack_timer s) (s_nagle s) (s_congestion_controller s)
-    (s_tsval_generator s) v.
+    (s_local_rx_last_ack s) (s_local_rx_dup_acks s) (s_pending_fast_retransmit s)
+    (s_syn_unacked_in_fin_wait s) (s_ack_delay s) (s_ack_delay_timer s) (s_challenge_ack_timer s)
+    (s_nagle s) (s_congestion_controller s) (s_tsval_generator s) v.
